@@ -350,6 +350,30 @@ pub(crate) struct IllegalOrderedRead;
 #[derive(Debug)]
 pub(crate) struct TooManyChunks;
 
+#[cfg(feature = "quinn_rs_quinn_verif")]
+impl Assembler {
+    /// (unordered?, recvd ranges, buffered chunks as (offset, len), bytes_read, end)
+    #[allow(clippy::type_complexity)]
+    pub(super) fn verif_state(
+        &self,
+    ) -> (bool, Vec<std::ops::Range<u64>>, Vec<(u64, usize)>, u64, u64) {
+        let (unordered, recvd) = match self.state {
+            State::Ordered => (false, Vec::new()),
+            State::Unordered { ref recvd } => (true, recvd.iter().collect()),
+        };
+        (
+            unordered,
+            recvd,
+            self.data
+                .iter()
+                .map(|b| (b.offset, b.bytes.len()))
+                .collect(),
+            self.bytes_read,
+            self.end,
+        )
+    }
+}
+
 #[cfg(test)]
 mod test {
     use super::*;
